@@ -287,6 +287,39 @@ def stored_format_cases():
         yield {'name': f"stored_number_format|{k}", 'ok': not probs, 'detail': '; '.join(probs[:3])}
 
 
+def model_limit_cases():
+    """limits on the points a model isotherm generates: a limit that is exactly zero is a limit (points on a limit may fall on
+    either side -- the property does not say); one-sided limits leave the other side open"""
+    import pygaps
+    import pygaps.modelling as pgm
+    pygaps.logger.disabled = True
+    m = pgm.get_isotherm_model('Henry', parameters={'K': 2.0}, pressure_range=(0.0, 1.0), loading_range=(0.0, 2.0), rmse=0.0)
+    iso = pygaps.ModelIsotherm(model=m, material='pgv_c03', adsorbate='nitrogen', temperature=77.355, pressure_mode='absolute', pressure_unit='bar',
+                               loading_basis='molar', loading_unit='mmol', material_basis='mass', material_unit='g', temperature_unit='K')
+    grid = numpy.linspace(0, 1, 11)
+    for what, f, full in (('pressure', lambda lim: iso.pressure(points=11, limits=lim), grid), ('loading', lambda lim: iso.loading(points=11, limits=lim), 2 * grid)):
+        for lim in ((None, 0.0), (0.0, None), (0.0, 0.0), (0.25 * full[-1], None), (None, 0.55 * full[-1]), (0.25 * full[-1], 0.55 * full[-1])):
+            lo = -numpy.inf if lim[0] is None else lim[0]
+            hi = numpy.inf if lim[1] is None else lim[1]
+            must = full[(full > lo) & (full < hi)]
+            may = full[(full >= lo) & (full <= hi)]
+            try:
+                got = numpy.asarray(f(lim), dtype=float)
+                ok = all(numpy.any(numpy.isclose(got, x)) for x in must) and all(numpy.any(numpy.isclose(may, x)) for x in got)
+                detail = '' if ok else f"returned {got}; points strictly inside {must}, inside or on the limits {may}"
+            except Exception as exc:
+                ok, detail = False, f"{type(exc).__name__}: {exc}"[:120]
+            yield {'name': f"model_isotherm_limits|{what}|{lim}", 'ok': bool(ok), 'detail': detail}
+
+
+@replayer('c03.model_limits')
+def _model_limits(spec, model):
+    for r in model_limit_cases():
+        if r['name'] == spec['name']:
+            return {'confirmed': not r['ok'], 'observed': r['detail'], 'expected': 'the generated points inside the limits'}
+    return {'confirmed': False, 'error': 'case not found'}
+
+
 @replayer('c03.stored_format')
 def _stored_format(spec, model):
     for r in stored_format_cases():
